@@ -1,0 +1,48 @@
+//go:build verif
+
+package deprecated
+
+// Contracts for gocv (contract-based deductive verification, /verif).
+
+// ---- the legacy migration list: a step is recorded as applied only together with a cleared resume
+// state (C18) ---------------------------------------------------------------------------------------
+// The runner persists (version, resume state) after every Migrate call that ended normally or by
+// cancellation. What it persists is one of two shapes: the step is unfinished - the version is still
+// this step's index and the state is what Migrate handed back - or the step is finished - the version
+// is the NEXT index and no resume state is kept. A resume state that survived the step it belongs to
+// would be handed to the next step's Before as if it were that step's own checkpoint.
+//@ func SchemaMetadata
+//@   trusted
+//@ func updateSchemaMetadata
+//@   trusted
+//@   logged as PersistSchema
+//@ extern func github.com/NethermindEth/juno/migration/deprecated.Migration.Before
+//@   logged as StepBefore
+// A step hands back a resume state only when it was cancelled (what every migrator of the list does;
+// assumed here), and a cancelled context stays cancelled.
+//@ ghost var cancelled bool
+//@ extern func github.com/NethermindEth/juno/migration/deprecated.Migration.Migrate
+//@   logged as StepMigrate
+//@   assigns cancelled
+//@   ensures old(cancelled) ==> cancelled
+//@   ensures result0 != nil && !cancelled ==> result1 == ErrCallWithNewTransaction
+//@ extern func github.com/NethermindEth/juno/db.KeyValueStore.NewBatch
+//@ extern func github.com/NethermindEth/juno/db.Batch.Write
+//@ extern func context.Context.Err
+//@   ensures cancelled <==> result != nil
+//@ ghost func errIs(e error, t error) bool
+//@ extern func errors.Is
+//@   ensures result == errIs(err, target)
+//@   ensures target == nil ==> result == (err == nil)
+//@ extern func errors.New
+//@   ensures result != nil
+//@ func migrateIfNeeded
+//@   props C18
+//@   arith int
+//@   nosafe
+//@   modifies *
+//@   assigns cancelled, calls_PersistSchema, arg_PersistSchema_txn, arg_PersistSchema_schema, calls_StepBefore, arg_StepBefore_intermediateState, calls_StepMigrate
+//@   callsite updateSchemaMetadata@*: unfinished_with_its_state_or_finished_without: ($1.IntermediateState != nil && $1.Version == i) || ($1.IntermediateState == nil && $1.Version == i + 1)
+//@   callsite Before@*: at_its_own_index: metadata.Version == i
+//@   loop 1: invariant version_is_the_step: metadata.Version == i || cancelled
+//@   loop 2: invariant version_is_the_step: metadata.Version == i
